@@ -358,10 +358,10 @@ class Pair:
 class C13(core.Property):
     id = "C13"
     modules = ["Proofs.RegistryProofs", "Props.C13"]
-    obligations = ["classify_agrees_jsonrpc", "helpers_ok_current"]
-    _obligations_full = ["classify_by_members_only", "classify_agrees_jsonrpc", "route_is_classify",
+    obligations = ["classify_by_members_only", "classify_agrees_jsonrpc", "route_is_classify",
                    "handler_gets_structure", "result_type_of_requested_method", "rtype_survives_other_ids",
-                   "generic_paths_preserved", "spec_leaves_sound", "helpers_ok_sound", "helpers_ok_current",
+                   "reply_structured_as_requested", "generic_paths_preserved", "generic_leaves_reachable", "generic_handler_gets_object",
+                   "spec_leaves_sound", "helpers_ok_sound", "helpers_ok_current", "trip_reference_agrees",
                    "C13_reference_agrees", "C13_partial", "C13_refuted_type_name", "C13_refuted_nested_jsonrpc",
                    "C13_refuted_array_params", "C13_refuted_kind_mismatch", "C13_refuted", "C13_nonvacuous"]
     coq_targets = ["Props/C13.vo", "Extract/ExtractC13.vo"]
@@ -402,7 +402,21 @@ class C13(core.Property):
     def _ensure_tables(self):
         if self.reg is None:
             logging.disable(logging.CRITICAL)
-            self.reg, self.helpers = gen_c13.reflect_registry(), gen_c13.reflect_helpers()
+            try:
+                self.reg, self.helpers = gen_c13.reflect_registry(), gen_c13.reflect_helpers()
+            except Exception as ex:
+                # fail-closed: regenerate() has already reported the failure (the check cannot pass);
+                # carry on with what can still be reflected so that a failing input may be found
+                self.reflect_error = repr(ex)
+                self.reflect_broken = []
+                try:
+                    self.reg = gen_c13.reflect_registry()
+                except Exception:
+                    self.reg = []
+                try:
+                    self.helpers = gen_c13.reflect_helpers(strict=False, broken=self.reflect_broken)
+                except Exception:
+                    self.helpers = []
             self._write_tables()
 
     def _mrow(self, r):
@@ -451,12 +465,12 @@ class C13(core.Property):
                 if f.endswith(".json"):
                     cases.extend(json.load(open(os.path.join(cdir, f))))
         # trips: every helper x n instances
-        n = chk.n(2, 50)
+        n = chk.n(10, 50)
         for h in self.helpers:
             for _ in range(n):
                 cases.append({"k": "trip", "side": h["side"], "helper": h["name"], "seed": rng.randrange(10 ** 9)})
         cases.extend(self._recv_cases(chk))
-        for _ in range(chk.n(1500, 30000)):
+        for _ in range(chk.n(10000, 40000)):
             cases.append({"k": "d2o", "j": self._rjson(rng, rng.choice([0, 0, 0, 1, 2]), top=True)})
         for c in cases:
             if c["k"] == "trip" and "pop" not in c:
@@ -525,7 +539,7 @@ class C13(core.Property):
                                 if not m and meth != "x/unknown": continue
                                 add(w, own)
         # responses to outstanding requests: generic and typed, several ids
-        for _ in range(chk.n(60, 1500)):
+        for _ in range(chk.n(800, 3000)):
             ids = rng.sample([1, 2, 3, "a", "b", "uuid-4", 10 ** 12], rng.randint(1, 3))
             sends = [(rng.choice(["x/sent", "y/sent", "textDocument/hover", "shutdown", "textDocument/definition"]), i) for i in ids]
             tm, ti = rng.choice(sends)
@@ -542,7 +556,7 @@ class C13(core.Property):
                 w = {"jsonrpc": J, "id": ti, "result": self._rjson(rng, rng.choice([0, 1, 2, 3]), top=True)}
             add(w, sends)
         # unknown methods: random generic payloads
-        for _ in range(chk.n(500, 12000)):
+        for _ in range(chk.n(6000, 25000)):
             w = {"jsonrpc": J, "method": rng.choice(["x/unknown", "y/other", "textDocument/notInRegistry"])}
             if rng.random() < 0.5: w["id"] = rng.choice([1, 2, "r-1", 10 ** 10])
             if rng.random() < 0.95: w["params"] = self._rjson(rng, rng.choice([0, 1, 2, 3]), top=True)
@@ -589,12 +603,18 @@ class C13(core.Property):
         for w in ({"method": "x/unknown", "params": {}}, {"jsonrpc": "1.0", "method": "x/unknown", "params": {}},
                   {"jsonrpc": 2.0, "method": "x/unknown"}, {"jsonrpc": J, "method": "x/unknown", "foo": 1},
                   {"jsonrpc": J, "id": 1, "method": "x/unknown", "result": 1}, [1, 2], [{"jsonrpc": J, "method": "x/unknown"}], 7, "s", None,
-                  {"jsonrpc": J, "id": 1, "method": "x/unknown", "params": {"é": 1, "a": 2}},
+
                   {"@pairs": [["jsonrpc", J], ["method", "x/unknown"], ["params", {"@pairs": [["a", 1], ["b", 2], ["a", 3]]}]]},
                   {"@pairs": [["jsonrpc", J], ["method", "x/unknown"], ["method", "y/other"], ["params", {"a": {"@pairs": [["k", {"jsonrpc": J}], ["k", 1]]}}]]},
                   {"jsonrpc": J, "id": [1], "method": "x/unknown"}, {"jsonrpc": J, "id": None, "method": "x/unknown", "params": {"a": 1}},
                   {"jsonrpc": J, "id": {"a": 1}, "error": err}, {"jsonrpc": J, "id": [1], "result": 1}):
             add(w, malformed=True)
+        add({"jsonrpc": J, "id": 1, "method": "x/unknown", "params": {"é": 1, "a": 2}}, malformed=True, nomodel=True)
+        # an incoming request under the id of an own outstanding request (finding 21 of C05: the
+        # two tables are shared between directions): model = implementation only
+        for own in (("x/sent", 5), ("textDocument/hover", 5), ("shutdown", "k")):
+            for meth, params in (("x/unknown", {"a": 1}), ("textDocument/hover", pos)):
+                add({"jsonrpc": J, "id": own[1], "method": meth, "params": params}, [own], malformed=True)
         return out
 
     # ---------------- implementation ----------------
@@ -812,7 +832,7 @@ class C13(core.Property):
             elif f.exception() is not None: st = ["exc", getattr(f.exception(), "code", None)]
             else: st = ["res", canon(f.result())]
             fs.append([canon(i), st])
-        return {"h": hs, "replies": replies, "futs": fs, "hook": hook}
+        return {"h": hs, "replies": replies, "futs": fs, "reported": bool(hook)}
 
     @staticmethod
     def _replied(written):
@@ -905,7 +925,7 @@ class C13(core.Property):
 
     def _recv_model(self, c, T):
         tag = T.int()
-        M = {"h": [], "replies": [], "futs": None, "hook": []}
+        M = {"h": [], "replies": [], "futs": None, "reported": False}
         unmodelled, route = False, -1
         def message(which):
             if T.int() == 0:
@@ -919,20 +939,22 @@ class C13(core.Property):
                 return {"__oracle_fails": ty}
         resolved = {}
         if tag == 0:
-            M["hook"] = [T.int() if T.int() else None]
+            if T.int(): T.int()
+            M["reported"] = True
         elif tag == 1:
             code = T.int()
             M["replies"] = [[T.pval(), T.int()] for _ in range(T.int())]
-            M["hook"] = [code]
+            M["reported"] = True
         elif tag == 2:
             i = T.pval(); payload = message("params")
-            M["h"] = [["req", payload]]; M["replies"] = [[i, "ok"]]; route = 0
+            how = T.int()      # _send_response: 0 = the class looked up for the id is None (TypeError), 1 generic, 2 typed
+            M["h"] = [["req", payload]]; M["replies"] = [[i, "ok" if how else -32603]]; route = 0
         elif tag == 3:
             M["h"] = [["note", message("params")]]; route = 1
         elif tag == 4:
             i = T.pval(); payload = message("result"); known = bool(T.int())
             if known: resolved[json.dumps(i)] = ["res", payload]
-            else: M["hook"] = [-32600]
+            else: M["reported"] = True
             route = 2
         elif tag == 5:
             i = T.pval(); err = message("error"); known = bool(T.int())
@@ -940,7 +962,7 @@ class C13(core.Property):
             if isinstance(err, dict):
                 code = dict(err.get("f", [])).get("code")
             if known: resolved[json.dumps(i)] = ["exc", code]
-            else: M["hook"] = [-32600]
+            else: M["reported"] = True
             route = 3
         else:
             unmodelled = True
@@ -1003,7 +1025,9 @@ class C13(core.Property):
         else:
             guard = False
         if S is None:
-            guard = False
+            # outside the statement: the model is still compared (tie) unless the case is one the
+            # model does not cover (non-ASCII member names)
+            guard = not c.get("nomodel") and not c.get("klass")
         return {"M": M, "S": S, "guard": guard, "klass": klass if not guard else None}
 
     # ---------------- comparison ----------------
@@ -1087,9 +1111,15 @@ class C13(core.Property):
     def search(self, chk):
         """the regenerated finite theorem or the tie broke: name the table row that is wrong"""
         self._ensure_tables()
+        found = []
+        for side, name, why in getattr(self, "reflect_broken", []):
+            found.append({"case": {"k": "table", "helper": name, "side": side}, "impl": why,
+                          "S": "the helper calls exactly one of notify / send_request / send_request_async with a method string",
+                          "verdict": "violation"})
+        if found:
+            return found
         lines = ["helperok " + self._hrow(h) for h in self.helpers] + ["covered " + enc_str(r["name"]) for r in self.reg]
         outs = core.run_driver("C13", lines)
-        found = []
         for h, o in zip(self.helpers, outs):
             if o != ["1"]:
                 found.append({"case": {"k": "table", "helper": h["name"], "side": h["side"], "row": h},
@@ -1100,6 +1130,20 @@ class C13(core.Property):
                 found.append({"case": {"k": "table", "method": r["name"]}, "impl": {"covered_server_client": o},
                               "S": "every registry method has its helper(s) on each side that sends it", "verdict": "violation"})
         return found
+
+    def extra_checks(self, chk):
+        """thorough tier: coqchk re-checks the compiled property file (and its cone) independently"""
+        if chk.quick:
+            return []
+        r = core.sh(f"timeout 1500 coqchk -silent -o -Q {core.COQ} Pygls Pygls.Props.C13", timeout=1600)
+        out = (r.stdout + r.stderr)
+        ok = r.returncode == 0 and "Axioms: <none>" in " ".join(out.split())
+        self.extra_coverage = dict(self.extra_coverage or {}, coqchk_ok=ok, coqchk_tail=out[-400:],
+                                   oracle_rejected_instances=getattr(self, "oracle_rejected", 0))
+        if ok:
+            return []
+        return [{"case": None, "impl": out[-1500:], "S": "coqchk accepts Props/C13.vo with no axioms",
+                 "verdict": "violation", "suffix": "no-failing-input-found"}]
 
     def distribution(self, cases):
         d = collections.Counter()
